@@ -83,10 +83,21 @@ func (pc ParseContext) ParseExploreRange(n datamodel.Node) (Selector, error) {
 		selector,
 		startValue,
 		endValue,
-		make([]datamodel.PathSegment, 0, endValue-startValue),
+		nil,
 	}
-	for i := startValue; i < endValue; i++ {
-		x.interest = append(x.interest, datamodel.PathSegmentOfInt(i))
+	// The interests are only materialized for modest ranges.
+	// A selector is untrusted input: a range like [0, 1<<40) must not make us allocate a slice of that size
+	// (and a span that overflows int64 must not reach make at all).
+	// With nil interests the walk offers every child of the node, and Explore picks out the range,
+	// which selects the same children in the same (ascending) order.
+	if span := endValue - startValue; span > 0 && span <= maxMaterializedRange {
+		x.interest = make([]datamodel.PathSegment, 0, span)
+		for i := startValue; i < endValue; i++ {
+			x.interest = append(x.interest, datamodel.PathSegmentOfInt(i))
+		}
 	}
 	return x, nil
 }
+
+// maxMaterializedRange is the largest span for which ExploreRange lists its interests explicitly.
+const maxMaterializedRange = 1024
